@@ -140,6 +140,11 @@ def mutants_of(base):
         if unary is not None:
             rebinders.append(("pattern-arg", "%s(?%s)" % (unary, var)))
             rebinders.append(("agg-pattern", "agg %s = ::ascent::aggregators::count() in undeclared_ok_%s(_)" % (var, unary)))
+        # ... and by a condition attached to the very clause that binds it
+        if " if " not in bis[0] and " let " not in bis[0]:
+            for rname, rb in (("attached-if-let", "if let Some(%s) = vfn::half(2)" % var), ("attached-let", "let %s = 1" % var)):
+                nb = [bis[0] + " " + rb] + bis[1:]
+                yield ("rebinding-" + rname, "item%d:attached-to-first-clause" % i, with_item(i, "%s <-- %s;" % (heads, ", ".join(nb))))
         for pos in range(1, len(bis) + 1):
             for rname, rb in rebinders:
                 if rname == "agg-pattern":
@@ -367,5 +372,5 @@ def run(prop, tier, seed):
              "extras": {"base_programs": len(bases), "ill_formed_variants": len(mutants), "macro_kinds": 4, "stage1": stats, "per_class": by_cls, "stage2_programs": len(to_stage2),
                         "stage2_compiled_without_error": len(compiled)},
              "violations": vio[:80], "violation_total": len(vio), "sig_counts": sigs,
-             "rule": "every single application of each listed violation (undeclared relation, arity +-1, aggregate / negation in own stratum directly / via a second rule / via a multi-head rule, rebinding by let / if-let / generator / pattern argument / aggregate pattern after every body item, self- and mutually-recursive macros in body / head / disjunction, ds attribute on a lattice, two ds attributes, unknown attributes, inter_rule_parallelism on a serial macro, include_source inside ascent_source) at every position of the base programs x the four macros; stage 1 runs the real macro implementation inside rustc, stage 2 lets rustc judge every variant the macro accepted plus one representative per class and macro",
+             "rule": "every single application of each listed violation (undeclared relation, arity +-1, aggregate / negation in own stratum directly / via a second rule / via a multi-head rule, rebinding by let / if-let / generator / pattern argument / aggregate pattern after every body item and by a condition attached to the binding clause itself, self- and mutually-recursive macros in body / head / disjunction, ds attribute on a lattice, two ds attributes, unknown attributes, inter_rule_parallelism on a serial macro, include_source inside ascent_source) at every position of the base programs x the four macros; stage 1 runs the real macro implementation inside rustc, stage 2 lets rustc judge every variant the macro accepted plus one representative per class and macro",
              "wall_s": time.time() - t0}]
